@@ -256,7 +256,13 @@ impl Accept for UnixListener {
 
     fn poll_accept(self: Pin<&mut Self>, cx: &mut Context<'_>) -> Poll<io::Result<Self::Conn>> {
         UnixListener::poll_accept(self.get_mut(), cx).map(|res| {
-            res.and_then(|(stream, remote)| Ok(UnixStream::new(stream, Some(remote.try_into()?))))
+            res.map(|(stream, remote)| {
+                // The peer may be bound to a path which is not valid UTF-8. That is a property
+                // of this one client and not a failure of the listener, so it must not surface
+                // as an accept error (which ends the server): such a peer counts as unnamed.
+                let remote: UnixAddr = remote.try_into().unwrap_or_else(|_| UnixAddr::unnamed());
+                UnixStream::new(stream, Some(remote))
+            })
         })
     }
 }
